@@ -48,6 +48,13 @@ def toJds (F : Fmt) (scale : Scale) (v : String) (v2 : String) : Option String :
     | .mjd => let a ← parseRat? v; let b ← parseRat? v2; pure (showJD (mjdToJds a b))
     | .datetime => let a ← parseInt? v; let b ← parseInt? v2; pure (showJD (dtToJds (a + b)))
     | _ => pure "err"     -- `val2 should be None`
+  else if F = .decimalyear then
+    -- the constructor with every refusal (`dyConstruct`; `dyConstruct_ok`: an accepted value is what `toJdsF` gives)
+    let x ← parseRat? v
+    match dyConstruct taiutc consts.tol scale x with
+    | .ok j => pure (showJD j)
+    | .valueError => pure "err"
+    | .overflow => pure "overflow"
   else
     let x ← val? F v v2
     match toJdsF taiutc consts.tol F scale x with
